@@ -48,6 +48,10 @@ class Mgr(S.Suite):
             # definitions over the full expression language (builtins, calls, computed keys), perturbed through the
             # manager: the model's expression language has none of these, so this part is oracle-only
             return [("w_expr.py", "c05", 1500 if tier == "quick" else 30000, ["--fixed"])]
+        if prop == "C13":
+            # generated functions over the full expression language (operator precedence of the printed source, builtins,
+            # calls): function vs assignments on a twin manager; oracle-only, the model's expression language is smaller
+            return [("w_expr.py", "c13", 1200 if tier == "quick" else 25000, ["--fixed"])]
         return []
 
     def nontrivial(self, stats, prop):
